@@ -289,6 +289,11 @@ def _gray_num_88(gnum: int) -> int:
     return _GRAY_START_88 + gnum
 
 
+def _is_rrggbb(desc: str) -> bool:
+    """True if desc is '#' followed by exactly six hex digits."""
+    return len(desc) == 7 and desc[0] == "#" and all(c in "0123456789abcdefABCDEF" for c in desc[1:])
+
+
 def _color_desc_true(num: int) -> str:
     return f"#{num:06x}"
 
@@ -365,16 +370,8 @@ def _parse_color_true(desc: str) -> int | None:
         (r, g, b) = _COLOR_VALUES_256[c]
         return (r << 16) + (g << 8) + b
 
-    if not desc.startswith("#"):
-        return None
-
-    if len(desc) == 7:
-        h = desc[1:]
-        return int(h, 16)
-
-    if len(desc) == 4:
-        h = f"0x{desc[1]}0{desc[2]}0{desc[3]}"
-        return int(h, 16)
+    if _is_rrggbb(desc):
+        return int(desc[1:], 16)
 
     return None
 
@@ -449,7 +446,7 @@ def _parse_color_256(desc: str) -> int | None:
 
 
 def _true_to_256(desc: str) -> str | None:
-    if not (desc.startswith("#") and len(desc) == 7):
+    if not _is_rrggbb(desc):
         return None
 
     c256 = _parse_color_256("#" + "".join(format(int(x, 16) // 16, "x") for x in (desc[1:3], desc[3:5], desc[5:7])))
@@ -477,6 +474,8 @@ def _parse_color_88(desc: str) -> int | None:
     83
     """
     if len(desc) == 7:
+        if not _is_rrggbb(desc):
+            return None
         desc = desc[0:2] + desc[3] + desc[5]
     if len(desc) > 4:
         # keep the length within reason before parsing
